@@ -33,6 +33,21 @@ def directed(rng, tier):
                 hs.round([(2, hs.sub("unsub", 101, src_mod=31))], w, 3)
                 hs.round([(3, hs.publish(102, b"late", src_mod=32))], w, 4)
                 out.append(hs)
+    # one module with several hundred individual subscriptions: every request is acknowledged, however many it holds
+    for lvl in (60,):
+        hs = C.History(loglevel=lvl, tag="many-subscriptions")
+        for _ in range(3):
+            hs.round([], [], 0, accept=True)
+        w = [1, 2, 3]
+        hs.round([(1, hs.connect_v2(logger=1, mod_id=30))], w, 0)
+        hs.round([(1, hs.sub("sub", C.ALL))], w, 0)
+        hs.round([(2, hs.connect_v1(src_mod=31)), (3, hs.connect_v1(src_mod=32))], w, 0)
+        for t in range(2000, 2300):
+            hs.round([(2, hs.sub("sub", t, src_mod=31))], w, 1)
+        for kind, t in (("sub", 2005), ("pause", 2299), ("resume", 2299), ("unsub", 2000), ("sub", 2300), ("resume", 2301)):
+            hs.round([(2, hs.sub(kind, t, src_mod=31))], w, 2)
+        hs.round([(3, hs.publish(2299, b"x", src_mod=32))], w, 3)
+        out.append(hs)
     return out
 
 
